@@ -8,7 +8,6 @@ import (
 	dtpb "github.com/google/fhir/go/proto/google/fhir/proto/r4/core/datatypes_go_proto"
 	"github.com/shopspring/decimal"
 	"github.com/verily-src/fhirpath-go/internal/fhir"
-	"github.com/verily-src/fhirpath-go/internal/fhirconv"
 	"github.com/verily-src/fhirpath-go/internal/protofields"
 )
 
@@ -113,7 +112,7 @@ func From(input any) (Any, error) {
 		}
 		return value, nil
 	case *dtpb.Instant:
-		value, err := ParseDateTime(fhirconv.InstantToString(v))
+		value, err := DateTimeFromProto(instantToDateTime(v))
 		if err != nil {
 			return nil, err
 		}
@@ -163,4 +162,19 @@ func Normalize(from Any, to Any) Any {
 		return from
 	}
 	return from
+}
+
+// instantToDateTime returns the FHIR dateTime holding the same value as the
+// instant. Going through the proto keeps the instant's precision: re-parsing
+// its text form dropped the fraction of microsecond-precision instants, which
+// the millisecond layout does not accept.
+func instantToDateTime(v *dtpb.Instant) *dtpb.DateTime {
+	precision := dtpb.DateTime_MICROSECOND
+	switch v.GetPrecision() {
+	case dtpb.Instant_SECOND:
+		precision = dtpb.DateTime_SECOND
+	case dtpb.Instant_MILLISECOND:
+		precision = dtpb.DateTime_MILLISECOND
+	}
+	return &dtpb.DateTime{ValueUs: v.GetValueUs(), Timezone: v.GetTimezone(), Precision: precision}
 }
